@@ -183,7 +183,14 @@ func (db *SingleBucketBackend) getBucketWithArbitraryPrefixLocked(bucket string,
 		}
 
 		objectPath := filepath.ToSlash(path)
-		if !prefix.Match(objectPath, nil) {
+		var match gofakes3.PrefixMatch
+		if !prefix.Match(objectPath, &match) {
+			return nil
+		}
+		if match.CommonPrefix {
+			// A key that has the delimiter after the prefix is reported through
+			// its common prefix, whatever the delimiter is:
+			response.AddPrefix(match.MatchedPart)
 			return nil
 		}
 
@@ -211,6 +218,9 @@ func (db *SingleBucketBackend) getBucketWithArbitraryPrefixLocked(bucket string,
 	// before "a-b"); S3 lists keys in byte order of the whole key.
 	sort.Slice(response.Contents, func(i, j int) bool {
 		return response.Contents[i].Key < response.Contents[j].Key
+	})
+	sort.Slice(response.CommonPrefixes, func(i, j int) bool {
+		return response.CommonPrefixes[i].Prefix < response.CommonPrefixes[j].Prefix
 	})
 
 	return response, nil
